@@ -610,7 +610,7 @@ def gen_mask_case(rng, tier):
     sizes = [v for k, v in params.items() if k != 'theta']
     ext = max(sizes) if fam not in ('rect', 'rannulus') else 0.5 * math.hypot(max(sizes), max(sizes))
     area_est = (2 * ext + 2) ** 2 * (2 if fam.endswith('annulus') else 1) * (1 if exact_arith else 2)
-    budget = 5000 if tier == 'quick' else 8000
+    budget = 4000 if tier == 'quick' else 8000
     if method == 'exact' and fam in ('rect', 'rannulus') and area_est * 1024 > 12 * budget:
         method = 'subpixel'
     if method == 'center' and area_est > budget:
@@ -823,7 +823,7 @@ def run(ctx):
         ctx.broken_obligation('pyx-untranslatable', {'error': repr(e)})
         ctx.stat('text', 'untranslatable', 1)
     # ---------------- masks ----------------
-    n = 260 if quick else 900
+    n = 220 if quick else 900
     coq_cases, descr = [], []
     text_differs = 0
 
@@ -948,9 +948,9 @@ def run(ctx):
     nb = 300 if quick else 2000
     box_descr = []
     for k in range(nb):
-        x0, y0 = rng.randint(-8, 12), rng.randint(-8, 12)
-        b = (x0, x0 + rng.randint(1, 9), y0, y0 + rng.randint(1, 9))
         ny, nx = rng.randint(1, 10), rng.randint(1, 10)
+        x0, y0 = rng.randint(-7, nx + 1), rng.randint(-7, ny + 1)
+        b = (x0, x0 + rng.randint(1, 9), y0, y0 + rng.randint(1, 9))
         r_ = rng.random()
         if r_ < 0.3:   # straddle / touch each edge exactly
             b = rng.choice([(-3, 0, 0, 2), (nx, nx + 2, 0, 2), (0, 2, -2, 0), (0, 2, ny, ny + 1), (-1, 1, -1, 1),
